@@ -3,7 +3,23 @@
 import json, os
 HERE = os.path.dirname(os.path.abspath(__file__))
 
+_PIPE_NOTE = ("Trusted/assumed: ideal primitives bound from the harness side (lazy random oracle for HMAC/hash, ideal cipher whose "
+              "wrong-key decryption fails, coin source for os.urandom, deterministic LCG for random, lazy random permutation for "
+              "BitwiseFFX, equality-based set for DP17's result); CrossHair's bytes/int models plus the models in vf/sx_plugin.py; "
+              "every counterexample is replayed with the real primitives before it is reported.")
+
 CLAIMED = {
+ "C01": dict(cat="other", tech="bounded symbolic execution of the real scheme pipeline (CrossHair/z3) under ideal primitives",
+             text="KeyGen/EDBSetup/TokenGen/Search of all nine schemes run symbolically through the public API; per obligation the "
+                  "configuration and list-length profile are concrete (every block/level/power-of-two boundary of small "
+                  "configurations), every identifier byte is a solver variable, and Search == DB[w] is decided by z3 for all "
+                  "identifier values; all path trees are exhausted. Bounded (N <= 17, small block parameters), not a proof.",
+             note=_PIPE_NOTE, ref="3/C01"),
+ "C02": dict(cat="other", tech="bounded symbolic execution (CrossHair/z3) with a symbolic searched keyword over lazy oracles",
+             text="The searched keyword is a symbolic byte string (every keyword of length 1..3/4 without leading NUL that is not "
+                  "stored); since PRF/PRP/hash are lazy oracles the solver covers all absent keywords on one path and decides the "
+                  "near-miss paths separately; the result must be empty and no exception may escape.",
+             note=_PIPE_NOTE, ref="3/C02"),
  "C17": dict(cat="other", tech="bounded symbolic execution of the real functions (CrossHair/z3), structure concrete, contents symbolic",
              text="Every obligation executes the repository's own byte/identifier-block helpers symbolically; within the stated "
                   "geometry bounds z3 decides the round-trip assertion for all byte contents and slice lengths of each path, and "
